@@ -1366,6 +1366,9 @@ class ReadMemoryByAddressResponse(
     def __init__(self, data_record: bytes) -> None:
         super().__init__()
 
+        if len(data_record) < 1:
+            raise ValueError("The dataRecord must not be empty")
+
         self.data_record = data_record
 
     def matches(self, request: UDSRequest) -> bool:
